@@ -41,13 +41,22 @@ def _is_mutable_expr(e: ast.AST) -> bool:
     return False
 
 
+PASSTHROUGH_PREFIXES: Tuple[str, ...] = ()   # set by the tier-G audit: calls that may return their argument (as-is dumpers)
+
+
 def tainted_names(fn: ast.FunctionDef, seeds: Set[str]) -> Set[str]:
     """argument, its aliases, things iterated / subscripted / unpacked out of it (all reachable from the argument)"""
     t = set(seeds)
+    holders: Set[str] = set()     # local containers filled with references to tainted objects (elements are tainted)
     changed = True
     while changed:
         changed = False
         for node in walk_no_nested(fn, include_root=False):
+            if isinstance(node, ast.Call) and isinstance(node.func, ast.Attribute) and node.func.attr in ("append", "add", "insert") \
+                    and isinstance(node.func.value, ast.Name) and node.func.value.id not in t | holders \
+                    and node.args and _derives_from(node.args[-1], t):
+                holders.add(node.func.value.id)
+                changed = True
             src = None
             targets: List[ast.expr] = []
             if isinstance(node, ast.Assign):
@@ -58,10 +67,17 @@ def tainted_names(fn: ast.FunctionDef, seeds: Set[str]) -> Set[str]:
                 src, targets = node.value, [node.target]
             if src is None:
                 continue
-            if _derives_from(src, t):
+            if _derives_from(src, t) or _derives_from(src, holders) and not isinstance(src, ast.Name):
                 for tg in targets:
+                    if isinstance(tg, (ast.Subscript, ast.Attribute)):
+                        # a reference to a tainted object is stored into a container: the container holds it
+                        b = tg.value
+                        if isinstance(b, ast.Name) and b.id not in t | holders:
+                            holders.add(b.id)
+                            changed = True
+                        continue
                     for n in ast.walk(tg):
-                        if isinstance(n, ast.Name) and n.id not in t:
+                        if isinstance(n, ast.Name) and isinstance(n.ctx, ast.Store) and n.id not in t:
                             t.add(n.id)
                             changed = True
     return t
@@ -85,6 +101,8 @@ def _derives_from(e: ast.AST, t: Set[str]) -> bool:
             return True
         if isinstance(f, ast.Name) and f.id in t:
             return True   # bound method taken from the argument (items_method())
+        if isinstance(f, ast.Name) and PASSTHROUGH_PREFIXES and f.id.startswith(PASSTHROUGH_PREFIXES) and len(e.args) == 1:
+            return _derives_from(e.args[0], t)   # a field dumper/loader may hand back the very object it was given (as is)
         return False
     if isinstance(e, ast.IfExp):
         return _derives_from(e.body, t) or _derives_from(e.orelse, t)
@@ -114,7 +132,7 @@ def mutation_findings(m: ModuleInfo, fn: ast.FunctionDef, qual: str, role: str, 
             bad = f"mutating call `.{node.func.attr}()`"
         if bad:
             n += 1
-            file, q, line, construct = m.rel, qual, getattr(node, "lineno", 0), norm(node)[:120]
+            file, q, line, construct = (m.rel if m is not None else "generated"), qual, getattr(node, "lineno", 0), norm(node)[:120]
             if locate is not None:
                 file, q, line, construct = locate(node, construct)
             res.add(Finding(prop, "PURE.argument-mutation", file, q, construct,
